@@ -63,7 +63,9 @@ CompClauses(r) ==
         \* setting the margins also installs each assertion's own bound in its test
         \cup (IF Close(o.u_after_margins, TestBound(u, v)) THEN {} ELSE {"installed:margins"})
         \cup (IF IsNum(o.u_ret) /\ \A j \in 1..Len(o.data) :
-                    IsNum(o.data[j]) /\ RLe(RNeg(Tol), RParse(o.data[j])) /\ RLe(RParse(o.data[j]), RAdd(RParse(o.u_ret), Tol))
+                    \* exactly: the tests refuse (or mis-handle) a value above the bound they are told, however slightly, and
+                    \* (1 - o/u)/(2 - v/u) <= 2/(2 - v/u) holds in floating point because division is monotone
+                    IsNum(o.data[j]) /\ RLe(Zero, RParse(o.data[j])) /\ RLe(RParse(o.data[j]), RParse(o.u_ret))
               THEN {} ELSE {"range"})
 
 PollClauses(r) ==
@@ -74,7 +76,7 @@ PollClauses(r) ==
         \cup (IF Close(o.u_ret, u) THEN {} ELSE {"bound"})
         \cup (IF o.u_installed = o.u_ret /\ o.seen = o.data THEN {} ELSE {"installed"})
         \cup (IF IsNum(o.u_ret) /\ \A j \in 1..Len(o.data) :
-                    IsNum(o.data[j]) /\ RLe(Zero, RParse(o.data[j])) /\ RLe(RParse(o.data[j]), RAdd(RParse(o.u_ret), Tol))
+                    IsNum(o.data[j]) /\ RLe(Zero, RParse(o.data[j])) /\ RLe(RParse(o.data[j]), RParse(o.u_ret))
               THEN {} ELSE {"range"})
 
 Verdict(r) ==
